@@ -78,6 +78,16 @@ CLAIMED = {
                      'correspondence (flatten). Unflatten / map / compare / hash / repr faults, exception identity, reference counts and later '
                      'behaviour: implementation oracle, exhaustive in k for ~45 operations per scenario.' + PARTIAL,
                 technique='Lean 4 proof (free-monad callback programs, refinement to the flatten model) with obligations regenerated from the source + correspondence + exhaustive fault-index oracle', ref='6 C15'),
+    'C16': dict(text='Proved: C16_depth_exact (no predicate, well-behaved custom nodes: flatten succeeds iff the tree has at most maxDepth levels, '
+                     'otherwise RecursionError and nothing else; every kind and mixture, mutual structural induction) and C16_depth_parity (same '
+                     'threshold in flatten_with_path); C16_loops_safe / C16_unsafe_loop_faults (a loop over a user container with re-entrant '
+                     'callbacks faults under some adversary iff it is an unchecked access to a shared mutable container; all adversaries, all '
+                     'lengths); C16_guarded_walk_safe / C16_unguarded_walk_faults (recursive walkers vs. C stack); generated obligations '
+                     'C16_access_sites_safe, C16_recursive_walkers_guarded, C16_same_guard re-read pytypes.h (for the running Python version), '
+                     'flatten.cpp, traversal.cpp, constructor.cpp, treespec.cpp on every run. The machine itself (out-of-bounds reads, '
+                     'use-after-free, stack use) is not modelled: each cell of the mutation / confusion / deep-treespec grids runs in a forked '
+                     'child (process death = failure); thorough repeats them on an ASan+UBSan build.' + PARTIAL,
+                technique='Lean 4 proof (depth induction, adversarial loop machine) with obligations regenerated from the source + correspondence + forked crash grid (ASan in thorough)', ref='6 C16'),
     'C18': dict(text='Proved: C18_sort_twin / C18_sort_spec (the C++ TotalOrderSort with its restore-on-failure and the Python total_order_sorted '
                      'compute the same list for every key list), C18_namedtuple_twin, C18_structseq_twin (C++ and Python classification predicates '
                      'agree on every realisable class description), C18_one_level_twin, C18_cache_inv / C18_cache_transparent (the bounded, '
